@@ -146,7 +146,10 @@ def r3_sections_monotone(chk):
                 forms = ('%s == %s or %s.startswith(%s + \'.\')' % (oidv, pv, oidv, pv),
                          '%s.startswith(%s + \'.\') or %s == %s' % (oidv, pv, oidv, pv),
                          "%s.split('.')[:len(%s.split('.'))] == %s.split('.')" % (oidv, pv, pv),
-                         "(%s + '.').startswith(%s + '.')" % (oidv, pv))
+                         "(%s + '.').startswith(%s + '.')" % (oidv, pv),
+                         '%s == %s or %s.startswith(%s + \'.\')' % (pv, oidv, oidv, pv),
+                         '%s.startswith(%s + \'.\') or %s == %s' % (oidv, pv, pv, oidv),
+                         "%s.split('.') == %s.split('.')[:len(%s.split('.'))]" % (pv, oidv, pv))
                 chk.ob('C18.R3', 'genIndex/compaction-prefix-test', len(pref) == 1 and norm(pref[0]) in forms,
                        where(mod, test[0]), 'the covering test must be a component-wise prefix test of the candidate '
                        'against the kept entry: %s' % [norm(c) for c in pref])
